@@ -114,7 +114,7 @@ def gen_bid(rng, bld=False, allow_zero=False):
     elif r < 0.75:
         val = str(rng.randint(1000, 1999))
     else:
-        val = rng.choice(["0001", "0033", "0999", "999", "1", "9", "0", "09", "099", "8999", "19999", "4444000"])
+        val = rng.choice(["0001", "0033", "0999", "999", "1", "9", "0", "09", "099", "8999", "19999", "4444000", "9999", "99999", "9999"])
     if bld:
         val = str(int(val)) if int(val) > 0 else "1"
     if int(val) == 0 and not allow_zero:
